@@ -48,6 +48,7 @@ def setup(ctx):
     ctx.require("monitor", "new_version_ok", 8)
     ctx.require("monitor", "old_version_attempts_client", 3)
     ctx.require("monitor", "plaintext_probes", 40)
+    ctx.require("monitor", "plaintext_probes_waited_past_timeouts", 30)
 
 
 def permissive_client(vmin, vmax, ciphers="ALL:@SECLEVEL=0"):
@@ -234,6 +235,77 @@ def plaintext_probe(ctx, label, port, handler_calls=None, docroot=None, light=Fa
         ctx.case(("plaintext", label, p[:4], bool(got)), True, sample=wit)
 
 
+def plaintext_until_timeouts(ctx, base):
+    """Peers that never speak TLS and then just wait: everything the server ever writes to the socket
+    (virtual time runs past every handshake / request timeout) must not be a Gemini response."""
+    import contextlib
+    import io
+
+    from nauyaca.server.config import ServerConfig
+
+    from vf import quiet_logs, tlsbench
+    from vf.sim import capture_factory
+    from vf.vloop import close_loop, new_loop
+
+    rng = ctx.rng("plain-virtual")
+    # a real ClientHello, to be cut short
+    cin, cout = ssl.MemoryBIO(), ssl.MemoryBIO()
+    cc = ssl.SSLContext(ssl.PROTOCOL_TLS_CLIENT)
+    cc.check_hostname = False
+    cc.verify_mode = ssl.CERT_NONE
+    o = cc.wrap_bio(cin, cout, server_hostname="localhost")
+    try:
+        o.do_handshake()
+    except ssl.SSLWantReadError:
+        pass
+    hello = cout.read()
+    payloads = [(b"", "nothing"), (b"\r\n", "empty-line"), (b"gem", "3-bytes"), (b"gemi", "4-bytes"), (b"gemini://localhost/\r\n", "request-line"),
+                (b"titan://localhost/x;size=1\r\nA", "titan-line"), (b"\x16", "1-byte-of-record-header"), (b"\x16\x03\x01", "3-bytes-of-record-header"),
+                (hello[:5], "record-header-only"), (hello[: len(hello) // 2], "half-client-hello"), (hello[:-1], "client-hello-minus-1"),
+                (bytes(rng.getrandbits(8) for _ in range(4)), "4-random-bytes"), (bytes(rng.getrandbits(8) for _ in range(300)), "300-random-bytes"),
+                (hello, "complete-client-hello-then-silence")]
+    for backend in ("stdlib", "pyopenssl"):
+        for wiring in ("start_server", "direct"):
+            cap = None
+            calls = [0]
+            if wiring == "start_server":
+                with contextlib.redirect_stdout(io.StringIO()):
+                    cap = capture_factory(dict(log_level="CRITICAL", enable_rate_limiting=False),
+                                          ServerConfig(host="127.0.0.1", port=1965, document_root=os.path.join(base, "doc"), require_client_cert=(backend == "pyopenssl")))
+                quiet_logs()
+            for payload, pname in payloads:
+                for split in ("one-read", "bytewise") if len(payload) in range(2, 40) else ("one-read",):
+                    loop = new_loop()
+                    try:
+                        from nauyaca.protocol.response import GeminiResponse
+                        from nauyaca.server.protocol import GeminiServerProtocol
+
+                        def handler(req):
+                            calls[0] += 1
+                            return GeminiResponse(status=20, meta="text/gemini", body="hello\n")
+
+                        before = calls[0]
+                        sw = tlsbench.Sandwich(loop, lambda: GeminiServerProtocol(handler), backend=backend, captured=cap)
+                        for ch in ([payload] if split == "one-read" else [payload[i:i + 1] for i in range(len(payload))]):
+                            if ch and not sw.tcp.lost:
+                                loop.do(sw.tcp.feed, ch)
+                        loop.run_until(1000.0)
+                        out = bytes(sw.tcp.out)
+                        ctx.count("monitor", "plaintext_probes")
+                        ctx.count("monitor", "plaintext_probes_waited_past_timeouts")
+                        label = f"{backend}:{wiring}"
+                        wit = {"context": label, "sent": payload[:60], "sent_class": pname, "split": split, "server_wrote": out[:80], "server_wrote_tail": out[-40:],
+                               "virtual_time": loop.time(), "closed": bool(sw.tcp.lost or sw.tcp.closing)}
+                        pure = pname != "complete-client-hello-then-silence"
+                        if re.match(rb"^[0-9][0-9] ", out) or re.search(rb"[1-6][0-9] [ -~]*\r\n$", out) or (pure and re.search(rb"(^|\r\n)[1-6][0-9] [^\r\n]*\r\n", out)):
+                            ctx.violation(f"plaintext-answered:context={label}:after-waiting", "a peer that never completed a TLS handshake was sent a clear-text Gemini response", wit)
+                        if calls[0] != before:
+                            ctx.violation(f"plaintext-reached-handler:context={label}", "bytes sent without TLS reached a request handler", wit)
+                        ctx.case(("plaintext-virtual", label, pname, split, bool(out), wit["closed"]), True, sample=wit)
+                    finally:
+                        close_loop(loop)
+
+
 def run(ctx):
     from nauyaca.protocol.response import GeminiResponse
     from nauyaca.security.pyopenssl_tls import create_pyopenssl_server_context
@@ -405,6 +477,8 @@ def run(ctx):
                     lt.stop()
         with live.ProtocolServer(lambda: GeminiServerProtocol(handler), backend="stdlib", server_ident=ident) as ps2:
             plaintext_probe(ctx, "create_server_context+spy-handler", ps2.port, handler_calls=handler_calls)
+        if ctx.shard == 0 or ctx.nshards == 1:
+            plaintext_until_timeouts(ctx, base)
 
         # ---- client contexts against permissive peers capped at an old version
         for vname, v in VERSIONS[:2]:
